@@ -1,9 +1,11 @@
-CONSTANTS Chans = {1, 3} Rows = {0, 14} Chars = {65, 32} MaxPairs = 5
+\* a caption channel on field 1, a caption channel and its text channel on field 2 (CC1, CC3, T3): all codes, 4 pairs
+CONSTANTS Chans = {1, 3, 7} Rows = {0, 14} Chars = {65, 32} MaxPairs = 4
   Indents = {0, 28} Depths = {2, 3} Tabs = {1, 3}
-  Kinds = {"RCL", "RDC", "EOC", "EDM", "ENM", "CR", "BS", "DER", "RU", "TO", "PAC", "MID", "SPC", "NULL", "TEXT"}
+  Kinds = {"RCL", "RDC", "EOC", "EDM", "ENM", "CR", "BS", "DER", "RU", "TO", "PAC", "MID", "SPC", "NULL", "TEXT",
+           "FON", "BAO", "BT", "FA", "TR", "RTD"}
   Beyond = {}
 SPECIFICATION Spec
 CONSTRAINT Bounded
-INVARIANTS CursorOK WindowOK
-PROPERTIES PopOnStable OneRep RepWindow DerClears BsOne
+INVARIANTS CursorOK WindowOK TextOK TintedOK
+PROPERTIES PopOnStable OneRep RepWindow DerClears BsOne TextRow RestartHomes OneChannel FlashRule BackspaceIn
 CHECK_DEADLOCK FALSE
